@@ -14,7 +14,10 @@ EXPLANATION = (
     "expressions that reference variables or basis functions override depends(); (R06.4) scope table of the leaf classes; (R06.5) "
     "the straight-line operator rules (sum/difference/product/quotient rule, every constant-folding rewrite, cross product, unscaled "
     "normal) equal the textbook identities as polynomials/rational functions in the operand symbols; (R06.6) pipeline order in "
-    "finalize (hash first, dependency analysis last).")
+    "finalize (hash first, dependency analysis last); (R06.7) all sites that contract the inverse Jacobian with a parametric "
+    "gradient use the same row/column roles of JacInv.  R06.1 counts an attribute as hashed only if it reaches the key through "
+    "injective operations (boolean, comparison and conditional expressions are reported as information-destroying); R06.2 also "
+    "requires every combiner of child hashes to keep the operands positional.")
 DOES_NOT_DECIDE = ("value preservation of replace_physical_derivs, _geo_hess_trf and the recursive det/inv/minor expansions "
                    "(that would be symbolic execution of recursive code)")
 TECHNIQUE = "custom AST rules: attribute def/use vs. hash-key table, order-provenance of sequences, polynomial/rational normal forms of rewrite rules"
